@@ -14,6 +14,12 @@ CHECKS = {
  "C16": ("exploration", "handshake-log monitors vs an independent header byte-layout model; per-cycle atomicity/release monitors",
          "Random header definitions x data widths 8..128 x packet lists x schedules through Packetizer, Depacketizer and their loop-back; PacketFIFO release/param monitor; Arbiter/Dispatcher per-cycle pairing with selector changes mid-packet.",
          "trusted: simulator, header_bytes()/frame_words() model in props/packetlib.py", "4 C16"),
+ "C06": ("exploration", "master/slave completion logs with unique payloads paired offline + per-cycle grant/decode invariants",
+         "Shared, crossbar and point-to-point Wishbone interconnects (1..3 x 1..3, random disjoint maps from mask decoders and SoCRegion.decoder, registered or not) under contending master BFMs (single/block cycles, back-to-back, simultaneous, cyc held or dropped) and slave BFMs with latencies and err; every master termination is paired with exactly one cycle at the mapped slave (same adr/we/sel/dat_w, that slave's dat_r/ack/err), unmapped addresses reach no slave, grant never moves while the owner holds cyc, fairness bound counted on the observed grant history.",
+         "trusted: simulator, BFMs in lib/bench/wb.py; masters never abort a pending stb; slaves have >= 1 wait state", "4 C06"),
+ "C07": ("exploration", "history at the master port vs reference byte memory; ack monitors; backing-store comparison",
+         "Every Wishbone adapter/memory configuration (91 quick) is driven with read/write/burst histories over a small aliasing window; each read is compared byte-wise (selected lanes) with a reference byte memory, the history ends with a full read sweep, pass-through DUTs are additionally compared with the backing Memory contents.",
+         "trusted: simulator, RefMem replay in props/c07.py, Cache(reverse) lane mapping for initial content", "4 C07"),
 }
 
 def main():
